@@ -260,7 +260,119 @@ static void op_f32all(unsigned hi) {
   printf("%" PRIu64 "\n", h);
 }
 
+/* ---- ACC: item accessors (getters / setters / predicates over cbor_item_t) ---------------------------
+   ACC <fn> <type> <a> <b> <c> <refcount> <hexdata> <value>
+   An item is laid out the way the constructors do it (header and payload in one malloc block, item->data pointing just behind the
+   header, so it is aligned and ASan sees every access beyond the given bytes); .type = <type>; the union member selected by <type> is
+   filled from a,b,c (ints: width=a; byte string: length=a,type=b; string: length=a,codepoint_count=b,type=c; array / map:
+   allocated=a,end_ptr=b,type=c; tag: value=b; float_ctrl: width=a,ctrl=b; any other tag: all zero).
+   The real accessor is first run in a forked child with assertions enabled (DEBUG build, ASan+UBSan): if the child dies (CBOR_ASSERT,
+   sanitizer report, signal) the line is `ok=0`; otherwise the accessor is run here and the line is
+   <result|-> t=<type> m=<a>,<b>,<c> rc=<refcount> d=<hexdata> ok=1     (the whole item after the call). */
+#include <fcntl.h>
+#include <sys/resource.h>
+#include <sys/wait.h>
+#include <unistd.h>
+
+static cbor_item_t* acc_item(unsigned type, uint64_t a, uint64_t b, uint64_t c, uint64_t rc, const unsigned char* d, size_t n) {
+  cbor_item_t* it = malloc(sizeof(cbor_item_t) + n);
+  memset(it, 0, sizeof(cbor_item_t));
+  it->data = (unsigned char*)it + sizeof(cbor_item_t);
+  if (n) memcpy(it->data, d, n);
+  it->refcount = rc;
+  it->type = (cbor_type)type;
+  switch (type) {
+    case 0: case 1: it->metadata.int_metadata.width = (cbor_int_width)a; break;
+    case 2: it->metadata.bytestring_metadata.length = a; it->metadata.bytestring_metadata.type = (_cbor_dst_metadata)b; break;
+    case 3: it->metadata.string_metadata.length = a; it->metadata.string_metadata.codepoint_count = b;
+            it->metadata.string_metadata.type = (_cbor_dst_metadata)c; break;
+    case 4: it->metadata.array_metadata.allocated = a; it->metadata.array_metadata.end_ptr = b;
+            it->metadata.array_metadata.type = (_cbor_dst_metadata)c; break;
+    case 5: it->metadata.map_metadata.allocated = a; it->metadata.map_metadata.end_ptr = b;
+            it->metadata.map_metadata.type = (_cbor_dst_metadata)c; break;
+    case 6: it->metadata.tag_metadata.tagged_item = NULL; it->metadata.tag_metadata.value = b; break;
+    case 7: it->metadata.float_ctrl_metadata.width = (cbor_float_width)a; it->metadata.float_ctrl_metadata.ctrl = (uint8_t)b; break;
+    default: break;
+  }
+  return it;
+}
+
+static void acc_print_item(const cbor_item_t* it, size_t n) {
+  uint64_t a = 0, b = 0, c = 0;
+  switch ((unsigned)it->type) {
+    case 0: case 1: a = it->metadata.int_metadata.width; break;
+    case 2: a = it->metadata.bytestring_metadata.length; b = it->metadata.bytestring_metadata.type; break;
+    case 3: a = it->metadata.string_metadata.length; b = it->metadata.string_metadata.codepoint_count; c = it->metadata.string_metadata.type; break;
+    case 4: a = it->metadata.array_metadata.allocated; b = it->metadata.array_metadata.end_ptr; c = it->metadata.array_metadata.type; break;
+    case 5: a = it->metadata.map_metadata.allocated; b = it->metadata.map_metadata.end_ptr; c = it->metadata.map_metadata.type; break;
+    case 6: b = it->metadata.tag_metadata.value; break;
+    case 7: a = it->metadata.float_ctrl_metadata.width; b = it->metadata.float_ctrl_metadata.ctrl; break;
+    default: break;
+  }
+  printf(" t=%u m=%" PRIu64 ",%" PRIu64 ",%" PRIu64 " rc=%zu d=", (unsigned)it->type, a, b, c, it->refcount);
+  print_hex(it->data, n);
+}
+
+/* 0: unknown function; 1: returned a value (in *ret); 2: void */
+static int acc_call(const char* fn, cbor_item_t* it, uint64_t v, uint64_t* ret) {
+#define G(name) if (!strcmp(fn, #name)) { *ret = (uint64_t)name(it); return 1; }
+#define S(name, T) if (!strcmp(fn, #name)) { name(it, (T)v); return 2; }
+#define M(name) if (!strcmp(fn, #name)) { name(it); return 2; }
+  G(cbor_typeof) G(cbor_isa_uint) G(cbor_isa_negint) G(cbor_isa_bytestring) G(cbor_isa_string) G(cbor_isa_array) G(cbor_isa_map)
+  G(cbor_isa_tag) G(cbor_isa_float_ctrl) G(cbor_is_int) G(cbor_is_float) G(cbor_is_bool) G(cbor_is_null) G(cbor_is_undef) G(cbor_refcount)
+  G(cbor_int_get_width) G(cbor_get_uint8) G(cbor_get_uint16) G(cbor_get_uint32) G(cbor_get_uint64) G(cbor_get_int)
+  S(cbor_set_uint8, uint8_t) S(cbor_set_uint16, uint16_t) S(cbor_set_uint32, uint32_t) S(cbor_set_uint64, uint64_t)
+  M(cbor_mark_uint) M(cbor_mark_negint)
+  G(cbor_float_get_width) G(cbor_float_ctrl_is_ctrl) G(cbor_ctrl_value) G(cbor_get_bool) S(cbor_set_ctrl, uint8_t)
+  if (!strcmp(fn, "cbor_set_bool")) { cbor_set_bool(it, v != 0); return 2; }
+  G(cbor_array_size) G(cbor_array_allocated) G(cbor_array_is_definite) G(cbor_array_is_indefinite)
+  G(cbor_map_size) G(cbor_map_allocated) G(cbor_map_is_definite) G(cbor_map_is_indefinite)
+  G(cbor_string_length) G(cbor_string_codepoint_count) G(cbor_string_is_definite) G(cbor_string_is_indefinite)
+  G(cbor_bytestring_length) G(cbor_bytestring_is_definite) G(cbor_bytestring_is_indefinite) G(cbor_tag_value)
+#undef G
+#undef S
+#undef M
+  return 0;
+}
+
+/* in the probing child a sanitizer finding only has to be noticed, not reported (symbolising the report costs ~100 ms):
+   ASan calls this hook as soon as it detects an error, before it prints anything */
+static volatile int acc_in_child = 0;
+void __asan_on_error(void) { if (acc_in_child) _exit(5); }
+
+static int op_acc(char** w) {
+  const char* fn = w[1];
+  unsigned type = (unsigned)strtoul(w[2], 0, 10);
+  uint64_t a = strtoull(w[3], 0, 10), b = strtoull(w[4], 0, 10), c = strtoull(w[5], 0, 10), rc = strtoull(w[6], 0, 10);
+  uint64_t v = strtoull(w[8], 0, 10), ret = 0;
+  size_t n = !strcmp(w[7], "-") ? 0 : strlen(w[7]) / 2;
+  unsigned char* d = malloc(n ? n : 1);
+  hex_decode(w[7], d, n);
+  cbor_item_t* it = acc_item(type, a, b, c, rc, d, n);
+  int handled = 1, status = 0;
+  fflush(stdout);
+  pid_t pid = fork();
+  if (pid == 0) {                     /* child: the same call, its death is the observation */
+    struct rlimit nocore = {0, 0}; setrlimit(RLIMIT_CORE, &nocore);
+    int fd = open("/dev/null", O_WRONLY); if (fd >= 0) dup2(fd, 2);
+    acc_in_child = 1;
+    _exit(acc_call(fn, it, v, &ret) == 0 ? 3 : 0);
+  }
+  if (pid < 0 || waitpid(pid, &status, 0) < 0) printf("fork-failed\n");
+  else if (WIFEXITED(status) && WEXITSTATUS(status) == 3) handled = 0;          /* unknown function: bad-op */
+  else if (!(WIFEXITED(status) && WEXITSTATUS(status) == 0)) printf("ok=0\n");
+  else {
+    int k = acc_call(fn, it, v, &ret);
+    if (k == 1) printf("%" PRIu64, ret); else printf("-");
+    acc_print_item(it, n);
+    printf(" ok=1\n");
+  }
+  free(it); free(d);
+  return handled;
+}
+
 int gen_op(int argc, char** w) {
+  if (argc == 9 && !strcmp(w[0], "ACC")) return op_acc(w);
   if (argc == 2 && !strcmp(w[0], "F32ALL")) { op_f32all((unsigned)strtoul(w[1], 0, 10)); return 1; }
   if (argc == 3 && !strcmp(w[0], "UTF8ALL")) { op_utf8all(strtoull(w[1], 0, 10), w[2]); return 1; }
   if (argc == 2 && !strcmp(w[0], "SD")) { op_sd(w[1]); return 1; }
